@@ -595,8 +595,16 @@ ctr_case(const unsigned char *key_, size_t klen, const unsigned char *iv_, uint3
 			w[0] = (unsigned char)(want >> 24); w[1] = (unsigned char)(want >> 16); w[2] = (unsigned char)(want >> 8); w[3] = (unsigned char)want;
 			judge("cmp_chain", "aes-ctr", aes_impls[i].name, "counter", g, w, 4);
 		} else {
-			/* the documentation does not say what is returned after a partial block: not judged */
-			vf_stat("unjudged_ctr_return_partial", 1);
+			/*
+			 * Partial last block: the header does not spell it out; since fix 6db69a2 every
+			 * implementation counts the partial block as consumed (cc + ceil(len/16)), which
+			 * AESCTR_DRBG relies on.  Judged under its own aspect.
+			 */
+			uint32_t want = cc0 + (uint32_t)((len + 15) / 16);
+			unsigned char g[4], w[4];
+			g[0] = (unsigned char)(cc >> 24); g[1] = (unsigned char)(cc >> 16); g[2] = (unsigned char)(cc >> 8); g[3] = (unsigned char)cc;
+			w[0] = (unsigned char)(want >> 24); w[1] = (unsigned char)(want >> 16); w[2] = (unsigned char)(want >> 8); w[3] = (unsigned char)want;
+			judge("cmp_chain_partial", "aes-ctr", aes_impls[i].name, "counter-partial", g, w, 4);
 			vf_distinct("ctr_partial_return", "%s:floor%+d", aes_impls[i].name,
 				(int)(cc - (cc0 + (uint32_t)(len / 16))));
 		}
@@ -1037,7 +1045,6 @@ main(int argc, char **argv)
 			sec_cbc_random("des", des_impls, n_des, 8, DESK, maxlen, 14, nrand);
 		}
 	}
-	vf_stat("tasks_total", 0);
 	vf_max("tasks_enumerated", g_task);
 	EVP_CIPHER_CTX_free(g_evp);
 	vf_done();
